@@ -292,7 +292,7 @@ Result apply_patch(File& out_file, RejectWriter& reject_writer, const std::vecto
     if (options.reverse_patch)
         reverse(patch);
 
-    const bool creates_file = patch.old_file_path == "/dev/null";
+    bool creates_file = patch.old_file_path == "/dev/null";
 
     LineWriter output(out_file, options);
     LineNumber line_number = 0; // NOTE: relative to 'old' file.
@@ -329,9 +329,11 @@ Result apply_patch(File& out_file, RejectWriter& reject_writer, const std::vecto
 
             switch (reverse_handling) {
             case ReverseHandling::Reverse:
-                // Reverse the remainder of our hunks, and then apply those.
-                for (size_t hunk_to_reverse = 1; hunk_to_reverse < patch.hunks.size(); ++hunk_to_reverse)
-                    reverse(patch.hunks[hunk_to_reverse]);
+                // From here on this is the reversed patch, just as if -R had been given: reverse the remainder
+                // of our hunks along with what the patch says about creation and deletion, names and modes.
+                reverse(hunk);
+                reverse(patch);
+                creates_file = patch.old_file_path == "/dev/null";
                 location = reversed_location;
                 break;
             case ReverseHandling::Ignore:
